@@ -24,6 +24,7 @@ func cmdGen2(args []string) {
 	n := fs.Int("n", 2, "repetitions")
 	seq := fs.String("seq", "", "comma separated option sets to generate one after the other in this process: plain,u,o,ou (overrides -u/-o/-n)")
 	dir := fs.String("dir", ".", "scratch dir")
+	keepOut := fs.Bool("keepout", false, "keep the generated files (gen2-<i>.out)")
 	fs.Parse(args)
 	b, err := os.ReadFile(*file)
 	if err != nil {
@@ -66,7 +67,9 @@ func cmdGen2(args []string) {
 		ob, _ := os.ReadFile(out)
 		h := sha256.Sum256(ob)
 		hashes = append(hashes, opt+" "+hex.EncodeToString(h[:8]))
-		os.Remove(out)
+		if !*keepOut {
+			os.Remove(out)
+		}
 	}
 	for _, h := range hashes {
 		fmt.Println(h)
